@@ -242,6 +242,9 @@ func (n *node) commitReady() {
 
 func (n *node) ApplyUpdate(e pb.Entry,
 	result sm.Result, rejected bool, ignored bool, notifyRead bool) {
+	if verifEnabled {
+		verifYield("node.ApplyUpdate")
+	}
 	if n.isWitness() {
 		return
 	}
